@@ -175,6 +175,12 @@ func init() {
 			}
 			return nil
 		},
+		// vfClockHook(f): f runs once, at the next call of time.Now() by the code under test (a schedule
+		// point inside a long operation that reads the clock, e.g. the start of a log compaction)
+		"vfClockHook": func(e *Exec, fn *ssa.Function, a []Value) Value {
+			e.extra["now_hook"] = a[0]
+			return nil
+		},
 		"vfChanUnbounded": func(e *Exec, fn *ssa.Function, a []Value) Value {
 			e.extra["chan_unbounded"] = true
 			return nil
@@ -284,6 +290,10 @@ func init() {
 	// --- time ---
 	stubs["time.Now"] = func(e *Exec, fn *ssa.Function, a []Value) Value {
 		// Time{wall: nanoseconds-within-second, ext: unix seconds, loc: nil}; accessor stubs below
+		if h, ok := e.extra["now_hook"]; ok {
+			delete(e.extra, "now_hook")
+			e.callValue(nil, h.(Value), nil)
+		}
 		return Struct{e.clockNsec, e.clockSec, (*Value)(nil)}
 	}
 	stubs["(time.Time).Unix"] = func(e *Exec, fn *ssa.Function, a []Value) Value { return a[0].(Struct)[1] }
